@@ -130,7 +130,7 @@ class Aggregate:
         elif v == "violation":
             sig = res.get("signature", "?")
             self.violation_count[sig] += 1
-            if self.violation_count[sig] == 1 and len(self.violations) < 12:
+            if self.violation_count[sig] == 1 and len(self.violations) < 40:
                 self.violations.append(res)
         for k, n in (res.get("faults") or {}).items():
             self.faults[k] += n
